@@ -443,4 +443,56 @@ pub mod __verif_tree {
         let (n_params, params) = path.__verif_raw_params();
         Some(Found { hit, node: node as *const Node as usize, n_params, params })
     }
+
+    /// one node of a final routing tree as construction (`register_handlers` / `merge_another` /
+    /// `finalize`) left it; `proc` / `catch` are `(status, body)` of what the node's procs answer
+    /// to a request, so that a harness can tell whose handler sits at the node
+    pub struct DumpNode {
+        /// `Some(bytes)` = `Pattern::Static(bytes)`, `None` = `Pattern::Param`
+        pub pattern:  Option<Vec<u8>>,
+        pub children: Vec<DumpNode>,
+        pub proc:     (u16, Vec<u8>),
+        pub catch:    (u16, Vec<u8>),
+    }
+
+    async fn probe(p: &BoxedFPC, method: Method) -> (u16, Vec<u8>) {
+        let mut req = Request::init(crate::util::IP_0000);
+        req.method = method;
+        let res = p.call_bite(&mut req).await;
+        (res.status.code(), match &res.content {
+            Content::Payload(bytes) => bytes.to_vec(),
+            _ => Vec::new(),
+        })
+    }
+
+    fn dump_node<'n>(node: &'n Node, method: Method) -> std::pin::Pin<Box<dyn std::future::Future<Output = DumpNode> + 'n>> {
+        Box::pin(async move {
+            let mut children = Vec::new();
+            for child in node.children {
+                children.push(dump_node(child, method).await)
+            }
+            DumpNode {
+                pattern: match &node.pattern {
+                    Pattern::Static(s) => Some(s.to_vec()),
+                    Pattern::Param     => None,
+                },
+                children,
+                proc:  probe(&node.proc, method).await,
+                catch: probe(&node.catch, method).await,
+            }
+        })
+    }
+
+    /// the real construction (`Ohkami::into_router` + `finalize`) and the six per-method trees it yields
+    pub async fn dump(ohkami: crate::Ohkami) -> Vec<(&'static str, DumpNode)> {
+        let (router, _) = ohkami.into_router().finalize();
+        vec![
+            ("GET",     dump_node(&router.GET, Method::GET).await),
+            ("PUT",     dump_node(&router.PUT, Method::PUT).await),
+            ("POST",    dump_node(&router.POST, Method::POST).await),
+            ("PATCH",   dump_node(&router.PATCH, Method::PATCH).await),
+            ("DELETE",  dump_node(&router.DELETE, Method::DELETE).await),
+            ("OPTIONS", dump_node(&router.OPTIONS, Method::OPTIONS).await),
+        ]
+    }
 }
